@@ -1018,6 +1018,10 @@ MUTANTS = [
       'mistral/auth/keycloak.py',
       '        req.headers["X-Project-Id"] = realm_name',
       '        req.headers.setdefault("X-Project-Id", realm_name)'),
+    m('C15-target-roles-from-header', 'C15', ['R8'], 'mistral/context.py',
+      "            'user_id': headers.get('X-Target-User-Id'),",
+      "            'user_id': headers.get('X-Target-User-Id'),\n"
+      "            'roles': headers.get('X-Target-Roles', '').split(','),"),
 ]
 
 
